@@ -421,31 +421,65 @@ def r5(ctx, cfg, R="C06.R5"):
 
 def r6(ctx, cfg, R="C06.R6"):
     F, P = cfg.facts, cfg.prov
-    # ---- pick_match
-    key = T + "MergeOverlay::pick_match"
+    # ---- next: one merge step. `pick_match` (a private helper that compares the two peeked keys) is always spliced into
+    # its caller (vlib/inline.py ALWAYS_INLINE), so the table is the same whether the helper exists, was inlined by hand or
+    # the comparison was folded into the `match` on the peeks.
+    key = "<transactions::MergeOverlay as std::iter::Iterator>::next"
     f = ctx.need_fn(R, key)
     if f is not None:
+        def is_peek(o, side):
+            return any(x[0] == "call" and x[1] == "std::iter::Peekable::peek" and _self_field(x[2][0], side) for x in alts(o))
+
+        def side_of(o):
+            l = contains(o, lambda x: is_peek(x, "left"))
+            r = contains(o, lambda x: is_peek(x, "right"))
+            k0 = contains(o, lambda x: x[0] == "field" and x[2] == "0")
+            return ("lkey" if l and not r else "rkey" if r and not l else "?") if k0 else "?"
+
+        def is_cmp(z):
+            return z[0] == "call" and (z[1].endswith("Ord::cmp") or z[1].endswith("::cmp"))
+
         def classify(fn, bid, t):
             o = peel(P.place(fn, t["discr_of"], (bid, "t")))
+            if is_peek(o, "left"):
+                return "left"
+            if is_peek(o, "right"):
+                return "right"
             if _self_field(o, "order"):
                 return "order"
-            if any(x[0] == "call" and x[1].endswith("Ord::cmp") for x in alts(o)):
+            if any(is_cmp(x) for x in alts(o)):
                 return "cmp"
             return None
 
+        # locals whose value becomes the function's result through plain moves (what a spliced helper's `return` leaves behind)
+        rc = {0}
+        grew = True
+        while grew:
+            grew = False
+            for b2, i2, st2 in f.stmts():
+                if st2["k"] == "assign" and not st2["dst"]["p"] and st2["dst"]["l"] in rc and st2["rv"]["k"] == "use" and \
+                        st2["rv"]["op"].get("k") in ("copy", "move") and not st2["rv"]["op"]["place"]["p"] and st2["rv"]["op"]["place"]["l"] not in rc:
+                    rc.add(st2["rv"]["op"]["place"]["l"])
+                    grew = True
+
+        def assumptions(sigma):
+            return [(lambda o: _self_field(peel(o), "order"), sigma["order"]),
+                    (lambda o: is_peek(peel(o), "left"), sigma["left"]),
+                    (lambda o: is_peek(peel(o), "right"), sigma["right"])]
+
         def watch_for(sigma):
-            # values are read under the cell's assumption on self.order, so that `let (a, b) = match order { Asc => (&l, &r),
-            # Desc => (&r, &l) }; a.cmp(b)` yields the operands of that order
-            Ps = P.assuming([(lambda o: _self_field(peel(o), "order"), sigma["order"])])
+            # values are read under the cell's assumptions, so that `let (a, b) = match order { Asc => (&l, &r), Desc => (&r, &l) };
+            # a.cmp(b)` yields the operands of that order
+            Ps = P.assuming(assumptions(sigma))
 
             def watch(fn, site, item):
                 bid, idx = site
                 if idx == "t" and item["k"] == "call":
                     c = item["callee"]
                     a = Ps.call_args(fn, item, bid)
-                    isret = item["dst"]["l"] == 0 and not item["dst"]["p"]
+                    isret = item["dst"]["l"] in rc and not item["dst"]["p"]
                     if c["key"].endswith("Ord::cmp") or (c.get("trait") == "std::cmp::Ord" and c["name"] == "cmp"):
-                        return ("cmp", _short(a[0]), _short(a[1]))
+                        return ("cmp", side_of(a[0]), side_of(a[1]))
                     if c.get("trait") in ("std::cmp::PartialEq", "std::cmp::PartialOrd"):
                         return None
                     if c["key"] == T + "MergeOverlay::take_left":
@@ -457,83 +491,60 @@ def r6(ctx, cfg, R="C06.R6"):
                     if isret:
                         return ("ret", "call:" + c["key"])
                     return None
+                if item["k"] == "assign" and not item["dst"]["p"] and item["dst"]["l"] in rc:
+                    rv = item["rv"]
+                    if rv["k"] == "use" and rv["op"].get("k") in ("copy", "move") and not rv["op"]["place"]["p"] and rv["op"]["place"]["l"] in rc:
+                        return None     # the move that carries a result already reported
+                    if item["dst"]["l"] != 0:
+                        o = peel(Ps.rvalue(fn, rv, site))
+                        if o[0] == "agg":
+                            return ("ret", "agg:%s{%s}" % (o[1], ", ".join("%s<-%s" % (f_, _short(v)) for f_, v in o[2])))
+                        return ("ret", _short(o))
                 return _ret_event(Ps, fn, site, item)
             return watch
 
         seen_bool = {"cmp": 0}
 
         def decide(fn, bid, t, sigma):
-            """`ordering == Ordering::X` on the tracked comparison"""
-            pred, args, pol = q.norm_cond(P.operand(fn, t["discr"], (bid, "t")), True)
+            """`ordering == Ordering::X` on the tracked comparison - or on the constant that stands in for it when one side
+            is exhausted (`(Some(_), None) => Ordering::Less`)"""
+            Ps = P.assuming(assumptions(sigma))
+            pred, args, pol = q.norm_cond(Ps.operand(fn, t["discr"], (bid, "t")), True)
             if pred == "eq" and len(args) == 2:
                 for x, y in (args, args[::-1]):
-                    if any(z[0] == "call" and z[1].endswith("Ord::cmp") for z in alts(peel(x))) and y[0] == "agg" and y[1].startswith("std::cmp::Ordering::"):
+                    y = peel(y)
+                    if not (y[0] == "agg" and y[1].startswith("std::cmp::Ordering::")):
+                        continue
+                    xs = alts(peel(x))
+                    if xs and all(is_cmp(z) for z in xs):
                         seen_bool["cmp"] += 1
                         return (sigma["cmp"] == y[1].rsplit("::", 1)[1]) == pol
+                    if len(xs) == 1 and xs[0][0] == "agg" and xs[0][1].startswith("std::cmp::Ordering::"):
+                        return (xs[0][1] == y[1]) == pol
             return None
 
-        names, table, seen = decision_table(f, {"order": ["Ascending", "Descending"], "cmp": ["Less", "Equal", "Greater"]}, classify, None, decide=decide, watch_for=watch_for)
+        def classify2(fn, bid, t):
+            # a `match` on the stand-in constant is decided like the comparison it replaces
+            return classify(fn, bid, t)
+
+        names, table, seen = decision_table(f, {"left": ["Some", "None"], "right": ["Some", "None"], "order": ["Ascending", "Descending"],
+                                                "cmp": ["Less", "Equal", "Greater"]}, classify2, None, decide=decide, watch_for=watch_for)
         seen["cmp"] += seen_bool["cmp"]
-        ctx.ob(R, key, "tracked-switches", seen["order"] >= 1 and seen["cmp"] >= 1, "pick_match does not branch on order and on the comparison: %s" % seen,
-               fn=f, sample=str(seen))
-        oi, ci = names.index("order"), names.index("cmp")
+        ctx.ob(R, key, "tracked-switches", seen["left"] >= 1 and seen["right"] >= 1 and seen["order"] >= 1 and seen["cmp"] >= 1,
+               "next does not branch on both peeks, the order and the comparison: %s" % seen, fn=f, sample=str(seen))
+        li, ri, oi, ci = (names.index(n) for n in ("left", "right", "order", "cmp"))
         for combo, seqs in sorted(table.items()):
-            order, c = combo[oi], combo[ci]
-            want_cmp = ("cmp", "lkey", "rkey") if order == "Ascending" else ("cmp", "rkey", "lkey")
-            want_tail = {"Less": (("take_left", "ret"),), "Equal": (("right.next", "dropped"), ("take_left", "ret")),
-                         "Greater": (("right.next", "ret"),)}[c]
+            l, r, order, c = combo[li], combo[ri], combo[oi], combo[ci]
             got = {tuple(e for e in s if isinstance(e, tuple)) for s in seqs}
-            ok = got == {(want_cmp,) + want_tail}
-            ctx.ob(R, key, "step(%s,%s)" % (order, c), ok, "merge step is %s, expected %s" % (sorted(got), (want_cmp,) + want_tail), fn=f,
-                   sample=" -> ".join(":".join(e) for e in (want_cmp,) + want_tail))
-    # ---- next
-    key = "<transactions::MergeOverlay as std::iter::Iterator>::next"
-    f = ctx.need_fn(R, key)
-    if f is not None:
-        def is_peek(o, side):
-            return any(x[0] == "call" and x[1] == "std::iter::Peekable::peek" and _self_field(x[2][0], side) for x in alts(o))
-
-        def classify(fn, bid, t):
-            o = peel(P.place(fn, t["discr_of"], (bid, "t")))
-            if is_peek(o, "left"):
-                return "left"
-            if is_peek(o, "right"):
-                return "right"
-            return None
-
-        def watch(fn, site, item):
-            bid, idx = site
-            if idx == "t" and item["k"] == "call":
-                c = item["callee"]
-                isret = item["dst"]["l"] == 0 and not item["dst"]["p"]
-                if not isret:
-                    if c["key"] in (T + "MergeOverlay::take_left", T + "MergeOverlay::pick_match") or c["name"] == "next":
-                        return ("dropped", c["key"])
-                    return None
-                a = P.call_args(fn, item, bid)
-                if c["key"] == T + "MergeOverlay::pick_match":
-                    lk = contains(a[1], lambda x: is_peek(x, "left")) and not contains(a[1], lambda x: is_peek(x, "right"))
-                    rk = contains(a[2], lambda x: is_peek(x, "right")) and not contains(a[2], lambda x: is_peek(x, "left"))
-                    k0 = contains(a[1], lambda x: x[0] == "field" and x[2] == "0") and contains(a[2], lambda x: x[0] == "field" and x[2] == "0")
-                    return ("ret", "pick_match(lkey,rkey)" if (lk and rk and k0) else "pick_match(?)")
-                if c["key"] == T + "MergeOverlay::take_left":
-                    return ("ret", "take_left")
-                if c["name"] == "next" and _self_field(a[0], "right"):
-                    return ("ret", "right.next")
-                return ("ret", "call:" + c["key"])
-            return _ret_event(P, fn, site, item)
-
-        names, table, seen = decision_table(f, {"left": ["Some", "None"], "right": ["Some", "None"]}, classify, watch)
-        ctx.ob(R, key, "tracked-switches", seen["left"] >= 1 and seen["right"] >= 1, "next does not branch on both peeks: %s" % seen, fn=f,
-               sample=str(seen))
-        li, ri = names.index("left"), names.index("right")
-        exp = {("Some", "Some"): "pick_match(lkey,rkey)", ("Some", "None"): "take_left", ("None", "Some"): "right.next",
-               ("None", "None"): "agg:std::option::Option::None{}"}
-        for combo, seqs in sorted(table.items()):
-            l, r = combo[li], combo[ri]
-            got = {tuple(e for e in s if isinstance(e, tuple)) for s in seqs}
-            ok = got == {(("ret", exp[(l, r)]),)}
-            ctx.ob(R, key, "next(%s,%s)" % (l, r), ok, "next yields %s, expected %s" % (sorted(got), exp[(l, r)]), fn=f, sample=exp[(l, r)])
+            if (l, r) == ("Some", "Some"):
+                want_cmp = ("cmp", "lkey", "rkey") if order == "Ascending" else ("cmp", "rkey", "lkey")
+                want = (want_cmp,) + {"Less": (("take_left", "ret"),), "Equal": (("right.next", "dropped"), ("take_left", "ret")),
+                                      "Greater": (("right.next", "ret"),)}[c]
+            else:
+                want = {("Some", "None"): (("take_left", "ret"),), ("None", "Some"): (("right.next", "ret"),),
+                        ("None", "None"): (("ret", "agg:std::option::Option::None{}"),)}[(l, r)]
+            ctx.ob(R, key, "step(%s,%s,%s,%s)" % (l, r, order, c), got == {want}, "merge step is %s, expected %s" % (sorted(got), want), fn=f,
+                   sample=" -> ".join(":".join(e) for e in want))
     # ---- take_left
     key = T + "MergeOverlay::take_left"
     f = ctx.need_fn(R, key)
